@@ -109,7 +109,10 @@ Tun0 == [ opened |-> FALSE, started |-> FALSE, startFail |-> FALSE, chdone |-> F
           \* the channel has recorded its end (hook cli.close.marked); Err() was first read before that
           closeMarked |-> FALSE, chEarly |-> FALSE,
           \* live heap of the process (MiB, after a full collection): first observation of the scenario, maximum
-          heapBase |-> -1, heapMax |-> -1 ]
+          heapBase |-> -1, heapMax |-> -1,
+          \* the transport refused a single Send (harness fault "sendfail"): the RPC it belonged to is disturbed in
+          \* ways only the application can resolve
+          sendFailed |-> FALSE ]
 
 Q0 == [ at |-> FALSE, final |-> FALSE, blocked |-> <<>>, h |-> <<>>, parked |-> <<>>, ctab |-> -1, stab |-> 0,
         nsrv |-> 0, qc2s |-> 0, qs2c |-> 0, g |-> -1, chdone |-> FALSE ]
@@ -587,8 +590,10 @@ OCar(e) ==
                     \/ e.what = "handlerReturn" /\ ((cfg.dir = "fwd" /\ ~RealSrv) \/ (cfg.dir = "rev" /\ ~RealCli))
                  THEN AddCause(tun, "peerend")
             ELSE IF e.what = "marshalfail" THEN [ tun EXCEPT !.marshalFail = TRUE ]
+            ELSE IF e.what = "sendfailed" THEN [ tun EXCEPT !.sendFailed = TRUE ]
             ELSE tun
-  /\ ws' = IF e.what \in {"fail", "ctxdone", "marshalfail"} THEN AllLocal("tunnel") ELSE ws
+  \* (a single Send that the transport refuses - "sendfailed" - may end any RPC in flight with an error)
+  /\ ws' = IF e.what \in {"fail", "ctxdone", "marshalfail", "sendfailed"} THEN AllLocal("tunnel") ELSE ws
   /\ QOff
   \* the library broke the usage contract of the gRPC stream that carries the tunnel
   /\ bad' = bad \cup Flag(e.what = "contract", "carrier.contract", 0)
@@ -838,7 +843,7 @@ C02_ResultOnce == \A r \in ORpcs : ~rp[r].cResMismatch
 \* the close frame carries what the handler returned (status and trailers), or
 \* what a server-local cause explains (cancel delivered, rejection)
 C02_CloseCarriesHandlerStatus ==
-  \A s \in OSids : (RealSrv /\ RealCli /\ ws[s].sClose >= 1 /\ ws[s].rpc \in ORpcs) =>
+  \A s \in OSids : (RealSrv /\ RealCli /\ ws[s].sClose >= 1 /\ ws[s].rpc \in ORpcs /\ ~tun.sendFailed) =>
      LET c == ws[s].close
          R == rp[ws[s].rpc]
      IN \/ /\ R.hRetStarted /\ c.code = R.hRet.code /\ c.msg = R.hRet.msg /\ c.det = R.hRet.det
@@ -883,7 +888,7 @@ LocalOK(r, res) ==
   \/ rp[r].sid \in OSids /\ ws[rp[r].sid].cliEnd = "tunnel" /\ res.cls = "err"
   \/ (tun.causes # {} \/ tun.marshalFail \/ tun.chdone \/ tun.cliMustDie) /\ res.cls = "err"
 C07_OneLegalOutcome ==
-  \A r \in ORpcs : (RealSrv /\ rp[r].cRes.cls # "none") =>
+  \A r \in ORpcs : (RealSrv /\ rp[r].cRes.cls # "none" /\ ~(tun.sendFailed /\ rp[r].cRes.cls = "err")) =>
      \/ rp[r].sid \in OSids /\ ws[rp[r].sid].closeDeliv /\ ResMatchesClose(rp[r].cRes, ws[rp[r].sid].close)
      \/ LocalOK(r, rp[r].cRes)
 \* cancelled / expired at the caller: no caller op of that RPC stays blocked
@@ -936,7 +941,7 @@ SrvMaybe == { r \in ORpcs : rp[r].inv > 0 /\ rp[r].hRetStarted /\ rp[r].shape = 
 \*  not read - head-of-line blocking by design - which delays every clean-up behind it; there the
 \*  tables are only required to be empty once the tunnel is gone, C14_NothingAfterTunnel)
 C14_ClientTableExact ==
-  (q.at /\ q.ctab >= 0 /\ q.parked = <<>> /\ RealSrv /\ cfg.cap = 0 /\ FCExpected) =>
+  (q.at /\ q.ctab >= 0 /\ q.parked = <<>> /\ RealSrv /\ cfg.cap = 0 /\ FCExpected /\ ~tun.sendFailed) =>
      q.ctab = (IF q.chdone THEN 0 ELSE Cardinality(CliLive))
 C14_ServerTableExact ==
   (q.at /\ q.parked = <<>> /\ RealCli /\ cfg.cap = 0 /\ FCExpected) =>
